@@ -31,6 +31,21 @@ static Circuit randomPlacedCircuit(Rng &rng, std::string &desc) {
     }
     c.addNet(cells, xo, yo, 1.0f);
   }
+  if (rng.chance(0.15)) {
+    // high-fanout nets in which a few cells own many pins
+    int big = (int)rng.range(1, 3);
+    for (int k = 0; k < big; ++k) {
+      int deg = (int)rng.range(20, 80);
+      std::vector<int> cells, xo, yo, pool;
+      for (int j = 0; j < 3; ++j) pool.push_back((int)rng.range(0, c.nbCells() - 1));
+      for (int j = 0; j < deg; ++j) {
+        cells.push_back(rng.chance(0.3) ? pool[rng.range(0, 2)] : (int)rng.range(0, c.nbCells() - 1));
+        xo.push_back((int)rng.range(-400, 400));
+        yo.push_back((int)rng.range(-400, 400));
+      }
+      c.addNet(cells, xo, yo, 1.0f);
+    }
+  }
   if (rng.chance(0.25)) {  // far from the origin: beyond what a 24-bit float mantissa holds
     auto pick = [&]() { long long m = rng.range(1LL << 24, 1LL << 28); return (int)(rng.chance(0.5) ? m : -m); };
     int dx = pick(), dy = pick();
